@@ -87,7 +87,7 @@ def report_misaligned(ctx, misaligned, cases):
 
 def run(ctx):
     rng = ctx.rng
-    n = 400 if ctx.quick() else 4000
+    n = 600 if ctx.quick() else 4000
     cases = []
     misaligned = []
     stats = {"generated": n, "compiled": 0, "rejected": {}, "kinds": {}, "flags": {"frac_nonpow2": 0, "eager_interval": 0, "multi_level_halo": 0},
